@@ -73,6 +73,7 @@ static void cur_set(const std::string &t) {
   memcpy(g_cur, t.data(), n);
   g_cur[n] = 0;
 }
+void vf::note_case(const Fields &f) { cur_set(f.text()); }
 static void write_file(const std::string &path, const std::string &t) {
   std::ofstream f(path, std::ios::binary | std::ios::trunc);
   f << t;
